@@ -33,6 +33,10 @@ func runC06(c *Ctx) {
 	// a barrier only ends if the wake-ups it depends on are really raised: the signal send is attempted under the
 	// (blocking) read lock on every call
 	c.ruleProtectedSends("R06.9")
+	// the in-flight count is a term of every barrier condition: each job that was handed off gives its slot back
+	// exactly once on every path of the completion (a fault path that keeps the slot leaves every waiter parked)
+	c.ruleIncrementSite("R06.10")
+	c.ruleDecrementSite("R06.10")
 }
 
 // predicateLeaves maps the operands of the barrier predicates to an abstract state.
